@@ -126,6 +126,36 @@ static void all_ops(const Ops<T>& in, long it)
     CHK("ssub", 2, xs::ssub(va, vb), clampT<T>(x - y), true);
     CHK("sign", 1, xs::sign(va), wrap<T>(x < 0 ? (u128)-1 : (u128)(x > 0 ? 1 : 0)), true);
     // avg: floor for unsigned, round toward zero for signed; avgr: ceil, only claimed for a+b >= 0
+    // the same operations through the other API forms a user may write: named functions, compound assignment,
+    // increment / decrement operators, unary plus (each is its own op so that a defect of one form is keyed to it)
+    CHK("xs_add", 2, xs::add(va, vb), wrap<T>((u128)x + (u128)y), true);
+    CHK("xs_sub", 2, xs::sub(va, vb), wrap<T>((u128)x - (u128)y), true);
+    CHK("xs_mul", 2, xs::mul(va, vb), wrap<T>((u128)x * (u128)y), true);
+    CHK("xs_neg", 1, xs::neg(va), wrap<T>((u128)0 - (u128)x), true);
+    CHK("add_assign", 2, (va += vb), wrap<T>((u128)x + (u128)y), true);
+    CHK("sub_assign", 2, (va -= vb), wrap<T>((u128)x - (u128)y), true);
+    CHK("mul_assign", 2, (va *= vb), wrap<T>((u128)x * (u128)y), true);
+    CHK("preinc", 1, ++va, wrap<T>((u128)x + 1), true);
+    CHK("predec", 1, --va, wrap<T>((u128)x - 1), true);
+    CHK("postinc_result", 1, va++, wrap<T>((u128)x), true);
+    CHK("postdec_result", 1, va--, wrap<T>((u128)x), true);
+    CHK("postinc_effect", 1, (va++, va), wrap<T>((u128)x + 1), true);
+    CHK("postdec_effect", 1, (va--, va), wrap<T>((u128)x - 1), true);
+    CHK("unary_plus", 1, +va, wrap<T>((u128)x), true);
+    {
+        // batch (op) scalar and scalar (op) batch: the scalar is lane 0 of b, broadcast by the implicit conversion
+        Ops<T> d = in;
+        for (size_t i = 0; i < Ops<T>::N; ++i)
+        {
+            d.b[i] = in.b[0];
+            d.cb[i] = in.cb[0];
+        }
+        const Ops<T>& in = d;
+        CHK("add_scalar_rhs", 2, va + vb.get(0), wrap<T>((u128)x + (u128)y), true);
+        CHK("sub_scalar_lhs", 2, vb.get(0) - va, wrap<T>((u128)y - (u128)x), true);
+        CHK("mul_scalar_rhs", 2, va * vb.get(0), wrap<T>((u128)x * (u128)y), true);
+        CHK("min_scalar", 2, xs::min(va, B(vb.get(0))), (T)(x < y ? x : y), true);
+    }
     CHK("avg", 2, xs::avg(va, vb), (T)(S ? ((x + y) / 2) : ((x + y) >> 1)), true);
     CHK("avgr", 2, xs::avgr(va, vb), (T)((x + y + 1) >> 1), x + y >= 0);
     {
@@ -147,6 +177,10 @@ static void all_ops(const Ops<T>& in, long it)
         const Ops<T>& in = d;
         CHK("div", 2, va / vb, (T)(x / y), true);
         CHK("mod", 2, va % vb, (T)(x % y), true);
+        CHK("xs_div", 2, xs::div(va, vb), (T)(x / y), true);
+        CHK("xs_mod", 2, xs::mod(va, vb), (T)(x % y), true);
+        CHK("div_assign", 2, (va /= vb), (T)(x / y), true);
+        CHK("mod_assign", 2, (va %= vb), (T)(x % y), true);
     }
 }
 
